@@ -541,6 +541,15 @@ def assemble_fn(repo, fs, record, canary=None, stub=False, soft=None):
         if len(hits) > 1 and k == 0:
             raise ExtractError('ambiguous anchor %r in %s' % (anchor, fs.name))
         i = hits[k-1]
+        if prop == '\x00after':
+            # end of the statement: the ';' at bracket depth 0 after its start
+            j = i
+            while j < bc:
+                if toks[j].text in OPEN: j = match_close(toks, j) + 1; continue
+                if toks[j].text == ';': break
+                j += 1
+            inserts.append((toks[j].end, '\n' + '\n'.join(lines) + '\n', 'HINT'))
+            continue
         tag = ('PROP:' + prop) if prop else 'HINT'
         inserts.append((toks[i].start, '\n'.join(lines) + '\n', tag))
     if fs.atend:
@@ -824,6 +833,10 @@ def build_unit(verif, repo, template_path, canary=False, soft=False, extra_fns=N
                             k = 1
                             if len(p2) > 2 and p2[2].startswith('#'): k = int(p2[2][1:])
                             cur = []; fs.before.append((p2[1], k, cur, None))
+                        elif c2 == 'after':
+                            k = 1
+                            if len(p2) > 2 and p2[2].startswith('#'): k = int(p2[2][1:])
+                            cur = []; fs.before.append((p2[1], k, cur, '\x00after'))
                         elif c2 == 'prop':
                             # prop <id> before "<anchor>" [#k]
                             k = 1
